@@ -5,7 +5,9 @@ import gen_prog, lower_common, par
 
 OL = None
 BUILTINS_EMITTED = ["setattr", "hasattr", "tuple", "list", "slice", "type", "globals", "locals", "iter", "next", "classmethod", "__import__"]
-RISKY = ["_", "__", "k", "v", "self", "it", "itertools", "importlib", "cls", "__ol", "ol_cnt", "_ol_k", "item", "loader", "retv"] + BUILTINS_EMITTED
+RISKY = ["_", "__", "k", "v", "self", "it", "itertools", "importlib", "cls", "__ol", "ol_cnt", "_ol_k", "item", "loader", "retv",
+         # names CPython gives to the symbol tables of lambdas / comprehensions, and modules the emitted code imports
+         "genexpr", "listcomp", "setcomp", "dictcomp", "lambda_", "operator", "top"] + BUILTINS_EMITTED
 ROLES = ["global", "local", "parameter", "loop-target", "function-name", "class-name", "class-attribute", "imported-alias", "nonlocal-cell", "lambda-parameter", "comprehension-target"]
 FEATURES = {
     "while": "n_ = 2\nwhile n_ > 0:\n    n_ -= 1\n    print('w', n_)",
@@ -33,6 +35,9 @@ FEATURES = {
     "if-test-reads": "if str({X})[:4] != 'zz' and print('i', str({X})[:4]) is None:\n    print('then')",
     "comprehension-reads": "print([(str({X})[:4], j_) for j_ in [1, 2] if str({X})[:4]])",
     "lambda-reads": "print((lambda z_: (str({X})[:4], z_))(1))",
+    "lambda-default-same-name": "print((lambda {X}={X}: str({X})[:4])(), (lambda *, {X}={X}: str({X})[:4])(), (lambda z_, {X}=[{X}]: str({X}[0])[:4])(0))",
+    "lambda-kwonly-param": "print((lambda *, {X}: str({X})[:4])({X}='kw'), (lambda *{X}: len({X}))(1, 2), (lambda **{X}: sorted({X}))(a_=1))",
+    "def-default-same-name": "def h2_({X}={X}, *, kw_={X}):\n    return str({X})[:4], str(kw_)[:4]\nprint(h2_())",
     "return-reads": "def r2_():\n    for j_ in [1, 2]:\n        if j_ == 2:\n            return str({X})[:4]\n    return None\nprint(r2_())",
 }
 
